@@ -454,13 +454,25 @@ func randomMapTrace(id int, seed int64, steps int, out *json.Encoder, fixed *map
 		cfg.VT = valTypes[rng.Intn(len(valTypes))]
 		cfg.NF = []string{"bin", "v1"}[rng.Intn(2)]
 		cfg.Cache = []string{"none", "large", "tiny"}[rng.Intn(3)]
+		if profile == "c08" {
+			cfg.NK = 6
+			cfg.Bf = []uint{2, 3, 16}[rng.Intn(3)]
+			cfg.KT = []string{"int", "string", "bytes", "userkey", "struct", "uint64"}[rng.Intn(6)]
+			cfg.VT = []string{"int", "string", "intslice"}[rng.Intn(3)]
+		}
 		if profile == "nocache" {
 			cfg.Cache = "none"
 			cfg.NK = 8 + rng.Intn(7)
 			cfg.Bf = []uint{2, 2, 3, 4}[rng.Intn(4)]
 		}
 	}
-	r := newMapRun(cfg, rng, out)
+	crng := rng
+	if profile == "c08" {
+		// the same key universe for every history of a configuration, so that different histories meet in the same nodes
+		h := int64(len(cfg.KT))*1000003 + int64(cfg.Bf)*7919 + int64(cfg.KT[0])*31 + int64(cfg.KT[len(cfg.KT)-1])
+		crng = rand.New(rand.NewSource(h))
+	}
+	r := newMapRun(cfg, crng, out)
 	r.reset()
 	sh := &shadow{live: map[int]map[int]int{}, cur: map[int]bool{}}
 	r.exec(absOp{Op: "new", H: 1})
@@ -597,5 +609,47 @@ func randomMapTrace(id int, seed int64, steps int, out *json.Encoder, fixed *map
 		if _, ok := sh.live[id]; ok {
 			r.exec(absOp{Op: "root", H: id})
 		}
+	}
+	if storesOut != nil {
+		r.dumpStores()
+	}
+}
+
+// storesOut, when set, receives every Persist.Store call of every history (C08).
+var storesOut *json.Encoder
+
+type stNode struct {
+	K []int    `json:"k"`
+	V []int    `json:"v"`
+	C []string `json:"c"`
+}
+
+type stEvent struct {
+	Op     string `json:"op"`
+	NS     string `json:"ns"`
+	Tr     int    `json:"tr"`
+	Name   string `json:"name"`
+	BDig   string `json:"bdig"`
+	HashOk bool   `json:"hashok"`
+	Node   stNode `json:"node"`
+	Dec    bool   `json:"dec"`
+}
+
+func (r *mapRun) dumpStores() {
+	ns := fmt.Sprintf("%s/%s/%s/bf%d/%v", r.cfg.KT, r.cfg.VT, r.cfg.NF, r.cfg.Bf, r.kc.keys)
+	for _, s := range r.st.allStores {
+		ev := stEvent{Op: "st", NS: ns, Tr: r.cfg.ID, Name: s.Name, BDig: nodeName(s.Bytes), HashOk: nodeName(s.Bytes) == s.Name,
+			Node: stNode{K: []int{}, V: []int{}, C: []string{}}}
+		if rn, err := decodeNode(r.cfg.NF, s.Bytes); err == nil {
+			ev.Dec = true
+			for i := range rn.Keys {
+				ev.Node.K = append(ev.Node.K, r.kc.RankFromJSON(rn.Keys[i]))
+			}
+			for i := range rn.Vals {
+				ev.Node.V = append(ev.Node.V, r.vc.RankFromJSON(rn.Vals[i]))
+			}
+			ev.Node.C = append(ev.Node.C, rn.Links...)
+		}
+		storesOut.Encode(ev)
 	}
 }
